@@ -85,7 +85,7 @@ def make_class(world, spec):
                 raise (PluginBaseFault if code == 'B' else PluginFault)('%s.%s call %d' % (name, cb, n))
 
     def __init__(self, config=None):
-        Plugin.__init__(self, name=name, config=config)
+        Plugin.__init__(self, name=spec.get('display') or name, config=config)
         if spec.get('ctor') == 'raises':
             raise PluginFault('%s constructor' % name)
         world.instances.append(self)
